@@ -47,7 +47,13 @@ func main() {
 			fmt.Fprintln(os.Stderr, "check needs a property id")
 			os.Exit(2)
 		}
-		os.Exit(runCheck(rest[0], *tier, *repo, *verbose, *only, *timeout))
+		// private scratch directory per run (concurrent checks must not share SMT files)
+		workDir = filepath.Join(verifDir, "work", fmt.Sprintf("%s-%d", rest[0], os.Getpid()))
+		rc := runCheck(rest[0], *tier, *repo, *verbose, *only, *timeout)
+		if rc == 0 && os.Getenv("VERIF_KEEP_WORK") == "" {
+			os.RemoveAll(workDir)
+		}
+		os.Exit(rc)
 	case "lemmas":
 		os.Exit(runLemmas(*verbose, *only, *timeout))
 	default:
@@ -372,6 +378,14 @@ func runCheck(prop, tier, repo string, verbose bool, only string, timeout int) i
 			return 2
 		}
 		obls = append(obls, o)
+	}
+	// obligation names must be unique (they name SMT files and known findings)
+	seenNames := map[string]int{}
+	for _, o := range obls {
+		seenNames[o.Name]++
+		if n := seenNames[o.Name]; n > 1 {
+			o.Name = fmt.Sprintf("%s~%d", o.Name, n)
+		}
 	}
 	if only != "" {
 		var f []*Obligation
